@@ -2,5 +2,16 @@
 export GOFLAGS=-mod=mod GOPROXY=off GOSUMDB=off GOTOOLCHAIN=local
 export VERIF_ROOT="$(cd "$(dirname "${BASH_SOURCE[0]}")/.." && pwd)"
 export GOCACHE=/verif/.cache/gocache
-export VERIF_BIN=$VERIF_ROOT/.cache/bin
+# VERIF_REPO (default /repo) exists only so that the same checks can be pointed at a mutated scratch
+# copy of the repository (seeded-change experiments) without touching /repo; registered checks
+# never set it.
+export VERIF_REPO="${VERIF_REPO:-/repo}"
+if [ "$VERIF_REPO" = /repo ]; then
+  export VERIF_BIN=$VERIF_ROOT/.cache/bin
+  export VERIF_MODFILE=$VERIF_ROOT/harness/go.mod
+else
+  _h=$(echo "$VERIF_REPO" | md5sum | cut -c1-8)
+  export VERIF_BIN=$VERIF_ROOT/.cache/bin-$_h
+  export VERIF_MODFILE=$VERIF_ROOT/.cache/alt-$_h.mod
+fi
 mkdir -p "$GOCACHE" "$VERIF_BIN"
